@@ -883,3 +883,50 @@ def instances(tier):
     out = _c04_instances_6(tier)
     out.append(Inst(iocb_group, {}, budget=120 if tier == "quick" else 600))
     return out
+
+
+# ------------------------------------------------------------------ an outcome produced while the request is being submitted
+@meta(bounds="one IOCB client that cannot segment (max APDU 50) and one server; a request too long for one APDU (60 octets of "
+             "payload) - the stack refuses it with an abort while the request is still being handed down - and a short one, "
+             "queued for the same peer in symbolic order; the application chooses the invoke ID of the long one or leaves it to "
+             "the stack (symbolic): each IOCB completes exactly once, the long one with an abort, the short one with the ack",
+      outside="other synchronous refusals (C12)",
+      stubs=["virtual clock (task._time)", "asyncore.loop -> clock advance", "task._Trigger -> wake flag", "fresh singletons per path"])
+def iocb_sync_abort(d):
+    w = World()
+    lan = nl.FaultLAN([], world=w)
+    cdev = nl.make_device("c", 10, numberOfApduRetries=0, apduTimeout=APDU_TIMEOUT, maxApduLengthAccepted=50,
+                          segmentationSupported="noSegmentation")
+    client = nl.IOStack(cdev, lan)
+    server = nl.AppStack(nl.make_device("s", 20, maxApduLengthAccepted=50), lan, app_timeout=APP_TIMEOUT)
+    long_first = d.bool('long_first')
+    chosen = d.bool('application_chooses_invoke_id')
+    long_req = nl.private_transfer(server.address, bytes(60))
+    if chosen:
+        long_req.apduInvokeID = 77
+    short_req = nl.private_transfer(server.address, b"\x01")
+    order = [("long", long_req), ("short", short_req)] if long_first else [("short", short_req), ("long", long_req)]
+    ios = [(name, client.submit(req)) for name, req in order]
+    w.run()
+    for name, io in ios:
+        if len(io.calls) != 1:
+            raise Violation("iocb-completion-count", which=name, n=len(io.calls), long_first=bool(long_first), chosen=bool(chosen))
+        state, resp, err, t = io.calls[0]
+        kind = nl.outcome_kind(resp if state == IO_COMPLETED else err)
+        if kind != ("abort" if name == "long" else "ack"):
+            raise Violation("iocb-outcome", which=name, got=kind, long_first=bool(long_first), chosen=bool(chosen))
+    if len(server.pt_seen) != 1:
+        raise Violation("requests-on-the-wire", n=len(server.pt_seen))
+    cres = nl.residue(client)
+    if cres or nl.residue(server) or not w.idle():
+        raise Violation("residue", client=cres, server=nl.residue(server))
+    d.reach()
+
+
+_c04_instances_7 = instances
+
+
+def instances(tier):
+    out = _c04_instances_7(tier)
+    out.append(Inst(iocb_sync_abort, {}, budget=120 if tier == "quick" else 600))
+    return out
